@@ -5,7 +5,7 @@ use std::{
 };
 #[cfg(feature = "verif-loom")]
 use {
-    loom::sync::atomic::{AtomicU32, AtomicU64, Ordering},
+    crate::verif_atomics::{AtomicU32, AtomicU64, Ordering},
     std::time::Duration,
 };
 
